@@ -248,13 +248,16 @@ class SRTM30:
             and longitude coordinates of the SRTM30 data points within the
             given rectangle.
         """
+        # Index (counted from 90 N southwards, starting at 0) of the row that
+        # contains lat_max and of the row that contains lat_min. A lat_min
+        # that lies exactly on a cell border belongs to the row above.
         i = (90 - lat_max) / SRTM30._dlat
         i_max = np.trunc(i)
-        if not i_max < i:
-            i_max = i_max + 1
         i = (90 - lat_min) / SRTM30._dlat
         i_min = np.trunc(i)
-        lat_grid = 90 + 0.5 * SRTM30._dlat - np.arange(i_max, i_min + 1) * SRTM30._dlat
+        if not i_min < i:
+            i_min = i_min - 1
+        lat_grid = 90 - 0.5 * SRTM30._dlat - np.arange(i_max, i_min + 1) * SRTM30._dlat
 
         j = (lon_max + 180) / SRTM30._dlon
         j_max = np.trunc((lon_max + 180.0) / SRTM30._dlon)
